@@ -29,7 +29,8 @@ class H0Connection:
                         )
                     )
                 elif data.endswith(b"\r\n") or event.end_stream:
-                    method, path = data.rstrip().split(b" ", 1)
+                    # a request line without a space has an empty path
+                    method, _, path = data.rstrip().partition(b" ")
                     http_events.append(
                         HeadersReceived(
                             headers=[(b":method", method), (b":path", path)],
